@@ -149,6 +149,35 @@ Theorem C04_conflict_shape : forall M,
        concat (map (hunk_term t) hs) = nth t (merge M accept word terms) [].
 Proof. exact conflict_shape. Qed.
 
+(** Under same-change = keep, identical adds resolve only if all terms are identical: with at
+    least three terms, all adds equal to [S] and some remove different from [S], the merge
+    stays unresolved at both hunk levels (every hunk of the line diff and of the word diffs has
+    the same net-count shape; a hunk with two non-zero net counts never resolves under keep). *)
+Theorem C04_keep_law : forall M,
+  (forall a b, valid_matching (length a) (length b) (M a b)) ->
+  (forall a b, eq_matching a b (M a b)) ->
+  (forall a, M a a = identity_matching (length a)) ->
+  forall (word : bool) (terms : list bytes) (S : bytes),
+  Nat.odd (length terms) = true -> 3 <= length terms ->
+  Forall (fun a => a = S) (evens terms) -> ~ Forall (fun r => r = S) (odds terms) ->
+  try_merge M false word terms = None.
+Proof. exact keep_law. Qed.
+
+(** Meaning of the corresponding checker clause, evaluated on the REAL result of files::merge,
+    and the model passes it. *)
+Theorem C04_keep_okb_spec : forall terms accept r,
+  keep_okb terms accept r = true <->
+  (accept = false -> 3 <= length terms ->
+   forall S, Forall (fun a => a = S) (evens terms) -> ~ Forall (fun b => b = S) (odds terms) ->
+             length r <> 1).
+Proof. exact keep_okb_spec. Qed.
+
+Theorem C04_model_keep_ok : forall word terms, Nat.odd (length terms) = true ->
+  keep_okb terms false (merge M_hist false word terms) = true.
+Proof.
+  destruct C04_layerB_hyps as (V & E & S). exact (model_keep_ok M_hist V E S).
+Qed.
+
 (** Identical sides over two different bases are two different changes and stay conflicted
     (the documented meaning of "same change"): the general identical-sides law is false. *)
 Theorem C04_same_sides_general_refuted :
@@ -174,3 +203,4 @@ Print Assumptions C04_same_sides.
 Print Assumptions C04_laws_okb_spec.
 Print Assumptions C04_cancel_law_hist.
 Print Assumptions C04_shape.
+Print Assumptions C04_keep_law.
